@@ -35,8 +35,19 @@ func genC06(t *rapid.T) C06Case {
 		return C06Case{Kind: "eval", Text: gen.PrintExpr(e)}
 	case 2:
 		var b strings.Builder
+		// names come from a small pool (so that a name is defined twice now and then), right-hand sides
+		// may name other globals, defined or not, or data
+		name := func(i int) string {
+			return rapid.SampledFrom([]string{"A", "B", "app.NAME", fmt.Sprintf("G%d", i), fmt.Sprintf("G%d", i)}).Draw(t, "gname")
+		}
 		for i, n := 0, rapid.IntRange(0, 6).Draw(t, "lines"); i < n; i++ {
-			switch rapid.IntRange(0, 6).Draw(t, "line") {
+			switch rapid.IntRange(0, 9).Draw(t, "line") {
+			case 7:
+				b.WriteString(fmt.Sprintf("%s = %s\n", name(i), rapid.SampledFrom([]string{"A", "B", "app.NAME", "app.OTHER", "$x", "$ij.y"}).Draw(t, "rhs")))
+			case 8:
+				b.WriteString(fmt.Sprintf("%s = [%s, 1]\n", name(i), rapid.SampledFrom([]string{"A", "B", "undefinedGlobal", "$x"}).Draw(t, "item")))
+			case 9:
+				b.WriteString(fmt.Sprintf("%s = %s\n", name(i), rapid.SampledFrom([]string{"1", "'s'", "1.5", "true", "null", "['k': A]", "A + 1", "not B"}).Draw(t, "lit")))
 			case 0:
 				b.WriteString("// comment\n")
 			case 1:
@@ -44,9 +55,9 @@ func genC06(t *rapid.T) C06Case {
 			case 2:
 				b.WriteString("no equals here\n")
 			case 3:
-				b.WriteString(fmt.Sprintf("G%d = %s\n", i, gen.PrintExpr(g.ChaosExpr(nil, 2))))
+				b.WriteString(fmt.Sprintf("%s = %s\n", name(i), gen.PrintExpr(g.ChaosExpr(nil, 2))))
 			case 4:
-				b.WriteString(fmt.Sprintf("G%d = %s\n", i, gen.PrintExpr(gen.Lit(g.AnyValue(1)))))
+				b.WriteString(fmt.Sprintf("%s = %s\n", name(i), gen.PrintExpr(gen.Lit(g.AnyValue(1)))))
 			case 5:
 				b.WriteString("G = 1\nG = 2\n")
 			case 6:
